@@ -151,6 +151,9 @@ def check(ctx, name, operands, impl_fn, torch_fn, exact, reqs, meta):
 
 
 def run(ctx):
+    from .unifygen import run_unify, run_antiunify
+    run_unify(ctx, 400 if ctx.quick else 8000)
+    run_antiunify(ctx, 400 if ctx.quick else 8000)
     # the op table must classify every public attribute
     public = {a for a in dir(PatternedTensor) if not a.startswith('_')}
     unclassified = public - EXCLUDED - TESTED
